@@ -37,6 +37,9 @@ type scenario struct {
 	Pages     []pageSpec   `json:"pages"`
 	Futures   [][]pageSpec `json:"futures"`
 	Ops       []string     `json:"ops"`
+	// NilItems: the collection holds nil-valued items — every item whose number is a multiple of 3 is handed out by the
+	// page's iterator as a nil interface value (with a nil error); a nil item is an item like any other
+	NilItems bool `json:"nil_items,omitempty"`
 }
 
 type world struct {
@@ -45,6 +48,8 @@ type world struct {
 	fetches    int
 	stop       func() // stops the paginator (set once it exists)
 	stoppedBy  int    // number of fetches that stopped the paginator
+	nilItems   bool   // see scenario.NilItems
+	lastNil    int64  // the number of the item most recently handed out as nil
 }
 
 type pg struct {
@@ -56,6 +61,7 @@ type pg struct {
 type iter struct {
 	items []int64
 	i     int
+	w     *world
 }
 
 func (it *iter) HasNext() bool { return it.i < len(it.items) }
@@ -65,6 +71,10 @@ func (it *iter) GetNext() (interface{}, error) {
 	}
 	v := it.items[it.i]
 	it.i++
+	if it.w != nil && it.w.nilItems && v%3 == 0 {
+		it.w.lastNil = v
+		return nil, nil
+	}
 	return v, nil
 }
 
@@ -73,7 +83,7 @@ func (p *pg) GetItemIterator() (pagination.IIterator, error) {
 	if p.spec.Kind == kIterFail {
 		return nil, errors.New("harness: iterator failure")
 	}
-	return &iter{items: p.spec.Items}, nil
+	return &iter{items: p.spec.Items, w: p.w}, nil
 }
 func (p *pg) GetItemCount() (int64, error) { return int64(len(p.spec.Items)), nil }
 func (p *pg) fetchNext() (*pg, error) {
@@ -97,6 +107,7 @@ func (p *pg) GetNext(ctx context.Context) (pagination.IPage, error) {
 	}
 	return n, nil
 }
+
 // HasFuture is page-specific: the future link is carried by the pages at which the traversal of the current chain can
 // come to rest (the last page, a page whose next page cannot be fetched, a page without iterator) — NOT by the pages
 // it merely passes through, so that consulting a page the paginator has already left gives a different answer.
@@ -167,7 +178,7 @@ func errKind(err error) string {
 // execute runs the scenario on the real paginator; outs has one entry per op.
 func execute(sc scenario) (ctorOK bool, ctorNilNil bool, outs []string, stopAt int) {
 	stopAt = -1
-	w := &world{}
+	w := &world{nilItems: sc.NilItems}
 	first := chain(w, sc.Pages)
 	for _, f := range sc.Futures {
 		if len(f) == 1 && f[0].Kind == kNilPage {
@@ -263,7 +274,9 @@ func execute(sc scenario) (ctorOK bool, ctorNilNil bool, outs []string, stopAt i
 			outs = append(outs, fmt.Sprintf("b:%v", p.HasNext()))
 		case "G":
 			it, e := p.GetNext()
-			if e == nil {
+			if e == nil && it == nil && sc.NilItems {
+				outs = append(outs, fmt.Sprintf("i:%d", w.lastNil)) // the nil-valued item
+			} else if e == nil {
 				outs = append(outs, fmt.Sprintf("i:%d", it.(int64)))
 			} else {
 				outs = append(outs, "e:"+errKind(e))
@@ -573,9 +586,54 @@ func genOps(r *h.Run, stream bool, total int) []string {
 	return ops
 }
 
+// hung counts the scenarios whose execution did not come back (their goroutines are still spinning): after a few of them
+// the remaining scenarios would only measure the load they cause.
+var hung int
+
+// executeGuarded runs one scenario under a watchdog: no scenario of this harness ever blocks (back-off 0, no real waiting
+// outside the timed scenarios), so a call that has not returned after 5 s never will; a panic inside the library is a
+// failure of the scenario, not of the harness.
+func executeGuarded(r *h.Run, sc scenario) (ctorOK bool, nilNil bool, outs []string, stopAt int, ok bool) {
+	type res struct {
+		ctorOK, nilNil bool
+		outs           []string
+		stopAt         int
+		panicked       any
+	}
+	ch := make(chan res, 1)
+	go func() {
+		var x res
+		defer func() {
+			if p := recover(); p != nil {
+				x.panicked = p
+			}
+			ch <- x
+		}()
+		x.ctorOK, x.nilNil, x.outs, x.stopAt = execute(sc)
+	}()
+	select {
+	case x := <-ch:
+		if x.panicked != nil {
+			r.Fail("panic:"+sc.Paginator, fmt.Sprintf("the paginator panicked: %v", x.panicked), sc)
+			return false, false, nil, -1, false
+		}
+		return x.ctorOK, x.nilNil, x.outs, x.stopAt, true
+	case <-time.After(5 * time.Second):
+		hung++
+		r.Fail("no-return:"+sc.Paginator, "a call on the paginator did not return within 5 s (no scenario of this harness waits for anything): HasNext / GetNext must terminate", sc)
+		return false, false, nil, -1, false
+	}
+}
+
 func runScenario(r *h.Run, sc scenario, emit bool) {
-	ctorOK, nilNil, outs, stopAt := execute(sc)
+	if hung >= 3 {
+		return
+	}
+	ctorOK, nilNil, outs, stopAt, ok := executeGuarded(r, sc)
 	r.Eval()
+	if !ok {
+		return
+	}
 	oracle(r, sc, ctorOK, nilNil, outs, stopAt)
 	for _, ps := range append([][]pageSpec{sc.Pages}, sc.Futures...) {
 		for _, p := range ps {
@@ -605,7 +663,6 @@ func runScenario(r *h.Run, sc scenario, emit bool) {
 	}
 	r.Sample(map[string]any{"scenario": sc, "ctor_ok": ctorOK, "outs": outs})
 }
-
 
 // ---- timed scenarios: the stream grace period on the real clock ------------------------------------------------
 // The harness imposes a schedule: HasNext is called right after construction and polls (back-off 10 ms) a stream whose
@@ -664,7 +721,9 @@ func executeTimed(ts timedScenario) []string {
 	w.start = time.Now()
 	if ts.Paginator == "static-stream" {
 		pp, err := pagination.NewStaticPageStreamPaginator(ctx, T, backoff, func(context.Context) (pagination.IStaticPageStream, error) { return first, nil },
-			func(context.Context, pagination.IStaticPage) (pagination.IStaticPage, error) { return nil, errors.New("harness: no next page") },
+			func(context.Context, pagination.IStaticPage) (pagination.IStaticPage, error) {
+				return nil, errors.New("harness: no next page")
+			},
 			func(_ context.Context, cur pagination.IStaticPageStream) (pagination.IStaticPageStream, error) {
 				return cur.(*tpg).future(), nil
 			})
@@ -836,6 +895,17 @@ func main() {
 			Ops: []string{"G", "H", "H", "G", "G", "G", "H"}}, true)
 	}
 	n := r.N(600, 20000)
+	// collections with nil-valued items (a nil item is an item): every paginator kind, items on first, next and future pages
+	for _, k := range kinds {
+		sc := scenario{Paginator: k, NilItems: true, Pages: []pageSpec{{Items: []int64{3, 1, 6}}, {}, {Items: []int64{9, 2}}, {Items: []int64{12}}},
+			Ops: []string{"H", "G", "G", "H", "G", "H", "G", "G", "H", "G", "H", "G", "H"}}
+		if strings.HasSuffix(k, "stream") {
+			sc.Futures = [][]pageSpec{{{Items: []int64{15, 4, 18}}}, {{}, {Items: []int64{21}}}}
+			sc.Ops = append(sc.Ops, "H", "G", "G", "H", "G", "H", "G", "D", "H", "G", "H")
+			sc.Elapsed = true
+		}
+		runScenario(r, sc, true)
+	}
 	for i := 0; i < n; i++ {
 		k := kinds[r.Rng.Intn(4)]
 		stream := strings.HasSuffix(k, "stream")
@@ -873,6 +943,10 @@ func main() {
 		}
 		_ = stopOnFetch
 		sc.Ops = genOps(r, stream, int(base)+2*nilPages)
+		sc.NilItems = r.Rng.Intn(4) == 0
+		if sc.NilItems {
+			r.Count("nil-valued-items")
+		}
 		runScenario(r, sc, i < r.N(600, 4000))
 	}
 	for range tss {
